@@ -10,7 +10,7 @@ from functools import partial
 
 import numpy as np
 
-from symx.core import SInt, SRatio, Violation, HarnessError
+from symx.core import SInt, SRatio, SBool, Violation, HarnessError
 from symx.patch import patched, math_shim, ModuleShim, INT_SHIM, _isnan
 from symx.run import Obligation
 
@@ -74,8 +74,13 @@ def _np_shim():
     return ModuleShim(np, isnan=_isnan(np.isnan), ceil=ceil, isclose=isclose, arange=arange)
 
 
+_TOK = [0]
+
+
 def _tok(*a, **k):
-    return "symx"
+    # names only label the graph; a per-path counter keeps the arrays built on one path distinct
+    _TOK[0] += 1
+    return f"symx{_TOK[0]}"
 
 
 def _patches():
@@ -87,6 +92,7 @@ def _patches():
 
 
 def _clear():
+    _TOK[0] = 0
     U._cumsum.cache_clear()
     U._max.cache_clear()
     AC.normalize_chunks_cached.cache_clear()
@@ -269,7 +275,7 @@ def mk_eye(nmax, cmax, kmax):
                 elif t.func is np.zeros:
                     (shp, bdt) = t.args
                     e.check(lambda: e.equal(shp[0], vch[i]) & e.equal(shp[1], hch[j]), "block shape differs from its lazy chunk sizes")
-                    e.check(lambda: e.implies(inblk(), ~e.equal(q - r, k)), "an all-zero block contains a position of the k-th diagonal")
+                    e.check(lambda: e.implies(inblk(), _NOT(e.equal(q - r, k))), "an all-zero block contains a position of the k-th diagonal")
                     obs.append(("zeros",))
                 else:
                     e.check(False, "block task is neither np.eye nor np.zeros")
@@ -289,12 +295,417 @@ def mk_eye(nmax, cmax, kmax):
     return Obligation(f"eye[N,M<={nmax},c<={cmax},|k|<={kmax}]", setup, run, patches=_patches, e2e=e2e, e2e_every=3)
 
 
+
+# ----------------------------------------------------------------------------- (3a) tri
+
+
+class _Rec:
+    def __init__(self):
+        self.calls = []
+
+
+TRI_SPECS = (1, 2, 3, 4, 5, (1, 2), (3, 2), (2, -1), "auto")
+
+
+def mk_tri(nmax, kmax, specs):
+    sizes = list(range(nmax + 1))
+
+    def setup(e):
+        N = e.pick("N", sizes)
+        M = None if e.flag("M_none") else e.pick("M", sizes)
+        spec = e.pick("spec", specs)
+        k = e.int("k", -kmax, kmax)
+        return N, M, spec, k
+
+    def run(e, N, M, spec, k):
+        _clear()
+        Mx = N if M is None else M
+        rec = _Rec()
+        real_ge = CR.greater_equal
+
+        def ge(a, b):
+            rec.calls.append((a, b))
+            return real_ge(a, b)
+
+        with patched((CR, "greater_equal", ge)):
+            arr = da.tri(N, M, k, dtype=int, chunks=spec)
+        e.check(len(rec.calls) == 1, "tri did not compare two index arrays exactly once")
+        a, b = rec.calls[0]
+        e.check(arr.shape == (N, Mx) and tuple(_tot(c) for c in arr.chunks) == (N, Mx), "lazy chunks do not add up to (N, M)")
+        e.check(arr.dtype == np.tri(1, dtype=int).dtype, "dtype")
+        # left operand: all sizes are concrete, so it is simply computed (row index column)
+        av = a.compute(scheduler="sync")
+        e.check(av.shape == (N, 1), "row operand is not an (N, 1) column")
+        # right operand: dask's arange with a symbolic start -k: interpreted block by block
+        e.check(b.shape == (Mx,), "column operand is not of length M")
+        gb = _graph(b)
+        _keys_ok(e, gb, b, "tri columns")
+        blocks = _arange_blocks(e, b, gb, "tri columns")
+        offs = _starts(b.chunks[0])
+        obs = []
+        for j, (b0, bs, n, dt) in enumerate(blocks):
+            e.check(lambda: e.equal(n, b.chunks[0][j]), "a column block produces a different number of elements than its lazy chunk size")
+            for q in range(offs[j], offs[j + 1]):
+                bval = b0 + (q - offs[j]) * bs
+                for r in range(N):
+                    ar = int(av[r, 0])
+                    # NumPy: tri(N, M, k)[r, q] == 1 iff q <= r + k
+                    e.check(lambda: (ar >= bval) == (q - r <= k), "greater_equal(rows, columns)[r, q] differs from NumPy's tri: q <= r + k")
+            obs.append((b0, n))
+        _clear()
+        return [tuple(arr.chunks), obs]
+
+    def e2e(model):
+        N = sizes[model.get("N", 0)]
+        M = None if model.get("M_none") else sizes[model.get("M", 0)]
+        spec = specs[model.get("spec", 0)]
+        k = model["k"]
+        for dt in (float, int, bool):
+            _cmp(f"tri({N}, {M}, {k}, dtype={dt}, chunks={spec})", da.tri(N, M, k, dtype=dt, chunks=spec), np.tri(N, M, k, dtype=dt))
+
+    return Obligation(f"tri[N,M<={nmax},|k|<={kmax}]", setup, run, patches=_patches, e2e=e2e, e2e_every=2)
+
+
+# ----------------------------------------------------------------------------- (3b) diag
+
+
+def _mkblock(off, d):
+    return np.arange(off, off + d) + 1
+
+
+def _mkblock2(r0, nr, c0, nc):
+    return (np.arange(r0, r0 + nr)[:, None] + 1) * 100 + (np.arange(c0, c0 + nc)[None, :] + 1)
+
+
+def _vector(name, ds):
+    offs = _starts(ds)
+    dsk = {(name, i): Task((name, i), _mkblock, offs[i], ds[i]) for i in range(len(ds))}
+    return da.Array(dsk, name, (tuple(ds),), dtype=_mkblock(0, 0).dtype)
+
+
+def _matrix(name, rs, cs):
+    r0, c0 = _starts(rs), _starts(cs)
+    dsk = {(name, i, j): Task((name, i, j), _mkblock2, r0[i], rs[i], c0[j], cs[j]) for i in range(len(rs)) for j in range(len(cs))}
+    return da.Array(dsk, name, (tuple(rs), tuple(cs)), dtype=_mkblock2(0, 0, 0, 0).dtype)
+
+
+def _NOT(x):
+    return (~x) if isinstance(x, SBool) else (not x)
+
+
+def _diag0_check(e, D, g, v, n, r, q, np_nonzero, np_idx, what):
+    """D = diag(v) with k == 0 (v 1-d with chunks ds).  For the position (r, q) of D (symbolic; only constrained when inside D):
+    D[r, q] is v[idx] exactly when np_nonzero (then idx == np_idx) and 0 otherwise."""
+    ds = v.chunks[0]
+    e.check(len(D.chunks) == 2 and len(D.chunks[0]) == len(ds) and len(D.chunks[1]) == len(ds), f"{what}: wrong block grid")
+    e.check(lambda: e.equal(list(D.chunks[0]), list(ds)) & e.equal(list(D.chunks[1]), list(ds)), f"{what}: lazy chunks are not (v.chunks, v.chunks)")
+    _keys_ok(e, g, D, what)
+    offs = _starts(ds)
+    obs = []
+    for i in range(len(ds)):
+        for j in range(len(ds)):
+            t = g[(D.name, i, j)]
+            inblk = lambda: (0 <= r) & (0 <= q) & (offs[i] <= r) & (r < offs[i + 1]) & (offs[j] <= q) & (q < offs[j + 1])
+            if t.func is np.diag:
+                e.check(len(t.args) == 1 and isinstance(t.args[0], TaskRef) and not t.kwargs, f"{what}: unexpected np.diag block task")
+                key = t.args[0].key
+                e.check(isinstance(key, tuple) and len(key) == 2 and key[0] == v.name and isinstance(key[1], int) and 0 <= key[1] < len(ds),
+                        f"{what}: np.diag block refers to {key!r}")
+                b = key[1]
+                # np.diag(block b of v)[a, c] = block[a] if a == c else 0, a square of side ds[b]
+                e.check(lambda: e.equal(ds[b], ds[i]) & e.equal(ds[b], ds[j]), f"{what}: block shape differs from its lazy chunk sizes")
+                e.check(lambda: e.implies(inblk(), e.equal(r - offs[i], q - offs[j]) == np_nonzero()),
+                        f"{what}: a non-zero where NumPy has none, or a zero where NumPy has an element of v")
+                e.check(lambda: e.implies(inblk() & e.equal(r - offs[i], q - offs[j]), e.equal(offs[b] + (r - offs[i]), np_idx())),
+                        f"{what}: the wrong element of v on the diagonal")
+                obs.append(("diag", b))
+            elif t.func is np.zeros_like:
+                shp = t.kwargs.get("shape")
+                e.check(isinstance(shp, tuple) and len(shp) == 2, f"{what}: zeros_like block without 2-d shape")
+                e.check(lambda: e.equal(shp[0], ds[i]) & e.equal(shp[1], ds[j]), f"{what}: block shape differs from its lazy chunk sizes")
+                e.check(lambda: e.implies(inblk(), _NOT(np_nonzero())), f"{what}: an all-zero block covers a position where NumPy has an element of v")
+                obs.append(("zeros",))
+            else:
+                e.check(False, f"{what}: block task is neither np.diag nor np.zeros_like")
+    return obs
+
+
+def mk_diag1d(nblocks, kmax):
+    def setup(e):
+        ds = tuple(e.int(f"d{i}", 0) for i in range(nblocks))
+        n = e.int("n", 0)
+        e.assume(lambda: e.equal(n, _tot(ds)))
+        k = e.int("k", -kmax, kmax)
+        r = e.int("r", 0)
+        q = e.int("q", 0)
+        return ds, n, k, r, q
+
+    def run(e, ds, n, k, r, q):
+        _clear()
+        v = _vector("vec", ds)
+        rec = _Rec()
+
+        def pad(array, pad_width, mode="constant", **kw):
+            rec.calls.append((array, pad_width, mode, kw))
+            return "padded"
+
+        with patched((CR, "pad", pad)):
+            res = da.diag(v, k)
+        # NumPy: diag(v, k) is (n+|k|) x (n+|k|); [i + max(0, -k), i + max(0, k)] = v[i]
+        lo_r = e.ite(lambda: k < 0, -k, 0)
+        absk = e.ite(lambda: k < 0, -k, k)
+        if not rec.calls:
+            e.check(lambda: e.equal(k, 0), "diag(v, k != 0) built without padding")
+            D, a0, b0 = res, 0, 0
+            shape = (n, n)
+        else:
+            e.check(len(rec.calls) == 1 and res == "padded", "diag(v, k) is not one padding of diag(v)")
+            D, pw, mode, kw = rec.calls[0]
+            e.check(mode == "constant" and (not kw or kw == {"constant_values": 0}), "padding is not with constant zeros")
+            e.check(len(pw) == 2 and all(len(x) == 2 for x in pw), "pad_width is not 2 x 2")
+            for x in pw:
+                e.check(lambda: (x[0] >= 0) & (x[1] >= 0), "negative pad width")
+            a0, b0 = pw[0][0], pw[1][0]
+            shape = (n + pw[0][0] + pw[0][1], n + pw[1][0] + pw[1][1])
+        e.check(isinstance(D, da.Array), "diag(v) is not an Array")
+        e.check(lambda: e.equal(shape[0], n + absk) & e.equal(shape[1], n + absk), "shape differs from NumPy's (n+|k|, n+|k|)")
+        e.check(lambda: e.equal(_tot(D.chunks[0]), n) & e.equal(_tot(D.chunks[1]), n), "lazy chunks of diag(v) do not add up to (n, n)")
+        inside = lambda: (r < n + absk) & (q < n + absk)
+        npnz = lambda: e.equal(q - r, k) & (r - lo_r >= 0) & (r - lo_r < n)
+        npidx = lambda: r - lo_r
+        # positions of the padding: zero in NumPy
+        e.check(lambda: e.implies(inside() & ((r - a0 < 0) | (r - a0 >= n) | (q - b0 < 0) | (q - b0 >= n)), _NOT(npnz())),
+                "a padded (zero) position where NumPy has an element of v")
+        g = _graph(D)
+        obs = _diag0_check(e, D, g, v, n, r - a0, q - b0, lambda: inside() & npnz(), npidx, "diag(1-d)")
+        _clear()
+        return [obs, a0, b0]
+
+    def e2e(model):
+        ds = tuple(model[f"d{i}"] % 4 for i in range(nblocks))
+        k = model["k"]
+        x = np.arange(sum(ds)) + 1
+        for dv in (da.from_array(x, chunks=(ds,)), da.from_array(x, chunks=max(1, ds[0]))):
+            _cmp(f"diag(1-d chunks={dv.chunks}, k={k})", da.diag(dv, k), np.diag(x, k))
+        _cmp(f"diag(numpy 1-d n={len(x)}, k={k})", da.diag(x, k), np.diag(x, k))
+
+    return Obligation(f"diag1d[blocks={nblocks},|k|<={kmax}]", setup, run, patches=_patches, e2e=e2e, e2e_every=1)
+
+
+def mk_diag2d(nblocks):
+    """2-d input, k == 0, equal row and column chunks: the block-diagonal shortcut"""
+
+    def setup(e):
+        ds = tuple(e.int(f"d{i}", 0) for i in range(nblocks))
+        t = e.int("t", 0)
+        return ds, t
+
+    def run(e, ds, t):
+        _clear()
+        v = _matrix("mat", ds, tuple(ds))
+        D = da.diag(v)
+        g = _graph(D)
+        e.check(len(D.chunks) == 1 and len(D.chunks[0]) == nblocks, "not 1-d with one block per diagonal block")
+        e.check(lambda: e.equal(list(D.chunks[0]), list(ds)), "lazy chunks differ from the diagonal blocks' sizes")
+        _keys_ok(e, g, D, "diag(2-d)")
+        offs = _starts(ds)
+        for i in range(nblocks):
+            tk = g[(D.name, i)]
+            e.check(tk.func is np.diag and len(tk.args) == 1 and isinstance(tk.args[0], TaskRef) and not tk.kwargs, "unexpected block task")
+            key = tk.args[0].key
+            e.check(isinstance(key, tuple) and len(key) == 3 and key[0] == v.name, f"block refers to {key!r}")
+            bi, bj = key[1], key[2]
+            # np.diag(B)[l] = B[l, l], l < min(B.shape); element t of NumPy's diagonal is v[t, t]
+            e.check(lambda: e.equal(e.ite(lambda: ds[bi] < ds[bj], ds[bi], ds[bj]), ds[i]), "block length differs from its lazy chunk size")
+            e.check(lambda: e.implies((offs[i] <= t) & (t < offs[i + 1]),
+                                      e.equal(offs[bi] + (t - offs[i]), t) & e.equal(offs[bj] + (t - offs[i]), t)),
+                    "element t of the diagonal is not v[t, t]")
+        _clear()
+        return [tuple(D.chunks[0])]
+
+    def e2e(model):
+        ds = tuple(model[f"d{i}"] % 4 for i in range(nblocks))
+        n = sum(ds)
+        x = _mkblock2(0, n, 0, n)
+        dv = da.from_array(x, chunks=(ds, ds))
+        for k in (0, 1, -2):
+            _cmp(f"diag(2-d chunks={dv.chunks}, k={k})", da.diag(dv, k), np.diag(x, k))
+
+    return Obligation(f"diag2d[blocks={nblocks}]", setup, run, patches=_patches, e2e=e2e, e2e_every=1)
+
+
+# ----------------------------------------------------------------------------- (3c) diagonal (NumPy integer arithmetic: enumerated)
+
+DIAGONAL_CHUNKS = ((1, 1), (2, 2), (3, 3), (1, 2), (3, 2), (2, 5), (5, 1))
+AXES2 = ((0, 1), (1, 0), (-2, -1), (-1, 0))
+AXES3 = ((0, 1), (0, 2), (1, 2), (1, 0), (2, 0), (2, 1), (-1, -3))
+
+
+def _diagonal_struct(e, a, x, off, ax1, ax2, what):
+    """structural pointwise check of dask's diagonal graph against NumPy's definition (all values concrete)"""
+    d = da.diagonal(a, off, ax1, ax2)
+    ref = np.diagonal(x, off, ax1, ax2)
+    g = _graph(d)
+    nd = a.ndim
+    p1, p2 = ax1 % nd, ax2 % nd
+    free = [ax for ax in range(nd) if ax not in (p1, p2)]
+    e.check(d.ndim == ref.ndim and tuple(_tot(c) for c in d.chunks) == ref.shape, f"{what}: lazy chunks {d.chunks} do not add up to NumPy's shape {ref.shape}")
+    e.check(d.dtype == ref.dtype, f"{what}: dtype")
+    e.check(tuple(d.chunks[:-1]) == tuple(a.chunks[ax] for ax in free), f"{what}: free axes' chunks changed")
+    _keys_ok(e, g, d, what)
+    starts = [_starts(c) for c in a.chunks]
+    offs = _starts(d.chunks[-1])
+    for key in itertools.product(*[range(len(c)) for c in d.chunks]):
+        t = g[(d.name,) + key]
+        i = key[-1]
+        if t.func is not np.diagonal:
+            e.check(d.chunks[-1][i] == 0, f"{what}: a non-empty output block is not produced by np.diagonal")
+            continue
+        ref_, kl, b1, b2 = t.args
+        e.check(isinstance(ref_, TaskRef) and ref_.key[0] == a.name and len(ref_.key) == nd + 1, f"{what}: block refers to {ref_!r}")
+        bidx = tuple(int(z) for z in ref_.key[1:])
+        kl, b1, b2 = int(kl), int(b1) % nd, int(b2) % nd
+        e.check({b1, b2} == {p1, p2}, f"{what}: block diagonal taken along other axes")
+        e.check(tuple(bidx[ax] for ax in free) == key[:-1], f"{what}: free block indices do not match")
+        bshape = tuple(a.chunks[ax][bidx[ax]] for ax in range(nd))
+        blen = max(0, min(bshape[b1] - max(0, -kl), bshape[b2] - max(0, kl)))
+        e.check(blen == d.chunks[-1][i], f"{what}: a block's diagonal has {blen} elements, its lazy chunk says {d.chunks[-1][i]}")
+        for l in range(blen):
+            tt = offs[i] + l
+            # NumPy: element tt of diagonal(x, off, ax1, ax2) has index max(0,-off)+tt on ax1 and max(0,off)+tt on ax2
+            want = {p1: max(0, -off) + tt, p2: max(0, off) + tt}
+            have = {b1: starts[b1][bidx[b1]] + max(0, -kl) + l, b2: starts[b2][bidx[b2]] + max(0, kl) + l}
+            e.check(want == have, f"{what}: element {tt} of the diagonal is read from {have}, NumPy reads {want}")
+    got = d.compute(scheduler="sync")
+    e.check(got.shape == ref.shape and got.dtype == ref.dtype and bool((got == ref).all()), f"{what}: values differ from NumPy's")
+    return tuple(d.chunks[-1])
+
+
+def mk_diagonal(nmax, kmax, three_d):
+    sizes = list(range(nmax + 1))
+
+    def setup(e):
+        N = e.pick("N", sizes)
+        M = e.pick("M", sizes)
+        ch = e.pick("ch", DIAGONAL_CHUNKS)
+        return N, M, ch
+
+    def run(e, N, M, ch):
+        _clear()
+        obs = []
+        if three_d:
+            x = np.arange(N * 3 * M).reshape(N, 3, M)
+            a = da.from_array(x, chunks=(ch[0], 2, ch[1]))
+            axes = AXES3
+        else:
+            x = np.arange(N * M).reshape(N, M)
+            a = da.from_array(x, chunks=ch)
+            axes = AXES2
+        for (ax1, ax2) in axes:
+            for off in range(-kmax, kmax + 1):
+                obs.append(_diagonal_struct(e, a, x, off, ax1, ax2, f"diagonal(shape={x.shape}, chunks={a.chunks}, offset={off}, axes=({ax1},{ax2}))"))
+        if not three_d:
+            for off in range(-kmax, kmax + 1):
+                _cmp(f"diag(2-d shape={x.shape}, chunks={a.chunks}, k={off})", da.diag(a, off), np.diag(x, off))
+        _clear()
+        return obs
+
+    return Obligation(f"diagonal[{'3d' if three_d else '2d'},N,M<={nmax},|offset|<={kmax}]", setup, run)
+
+
+# ----------------------------------------------------------------------------- (4) ones / zeros / full: lazy chunks and block shapes
+
+WRAPPED = ("ones", "zeros", "full", "empty")
+
+
+def mk_wrap(ndim, smax, cmax):
+    def setup(e):
+        which = e.pick("which", WRAPPED)
+        shape = tuple(e.int(f"s{i}", 0, smax) for i in range(ndim))
+        cs = tuple(e.int(f"c{i}", 1, cmax) for i in range(ndim))
+        return which, shape, cs
+
+    def run(e, which, shape, cs):
+        _clear()
+        if which == "full":
+            arr = da.full(shape, 7, chunks=cs, dtype="i8")
+        else:
+            arr = getattr(da, which)(shape, chunks=cs, dtype="i8")
+        g = _graph(arr)
+        e.check(len(arr.chunks) == ndim, "wrong ndim")
+        for i in range(ndim):
+            e.check(lambda: e.equal(_tot(arr.chunks[i]), shape[i]), "lazy chunks do not add up to the shape")
+        e.check(arr.dtype == np.dtype("i8"), "dtype")
+        _keys_ok(e, g, arr, which)
+        for key in itertools.product(*[range(len(c)) for c in arr.chunks]):
+            t = g[(arr.name,) + key]
+            e.check(isinstance(t, Task) and len(t.args) == 1 and isinstance(t.args[0], DataNode), "unexpected block task")
+            shp = t.args[0].value
+            e.check(isinstance(shp, tuple) and len(shp) == ndim, "block shape argument")
+            for i in range(ndim):
+                e.check(lambda: e.equal(shp[i], arr.chunks[i][key[i]]), "a block is created with a shape different from its lazy chunk sizes")
+            if e.mode == "native":
+                got = t()
+                e.check(got.shape == tuple(shp) and got.dtype == arr.dtype, "executed block shape/dtype")
+                if which != "empty":
+                    e.check(bool((got == {"ones": 1, "zeros": 0, "full": 7}[which]).all()), "executed block values")
+        _clear()
+        return [tuple(arr.chunks)]
+
+    def e2e(model):
+        shape = tuple(model[f"s{i}"] for i in range(ndim))
+        cs = tuple(model[f"c{i}"] for i in range(ndim))
+        _e2e_fill(shape, cs)
+
+    return Obligation(f"wrap[ndim={ndim},s<={smax},c<={cmax}]", setup, run, patches=_patches, e2e=e2e, e2e_every=5)
+
+
+def _e2e_fill(shape, cs):
+    tag = f"shape={shape}, chunks={cs}"
+    for dt in (None, "i4", bool):
+        _cmp(f"ones({tag}, dtype={dt})", da.ones(shape, chunks=cs, dtype=dt), np.ones(shape, dtype=dt))
+        _cmp(f"zeros({tag}, dtype={dt})", da.zeros(shape, chunks=cs, dtype=dt), np.zeros(shape, dtype=dt))
+    for fv in (7, 2.5, True):
+        _cmp(f"full({tag}, {fv})", da.full(shape, fv, chunks=cs), np.full(shape, fv))
+    d = da.empty(shape, chunks=cs, dtype="i2")
+    if d.shape != tuple(shape) or tuple(sum(c) for c in d.chunks) != tuple(shape) or d.dtype != np.dtype("i2") or d.compute(scheduler="sync").shape != tuple(shape):
+        raise Violation(f"empty({tag}): shape/chunks/dtype")
+    x = (np.arange(int(np.prod(shape))).reshape(shape) % 5).astype("i4")
+    dx = da.from_array(x, chunks=cs)
+    _cmp(f"ones_like({tag})", da.ones_like(dx), np.ones_like(x))
+    _cmp(f"zeros_like({tag}, dtype=float)", da.zeros_like(dx, dtype=float), np.zeros_like(x, dtype=float))
+    _cmp(f"full_like({tag}, 3)", da.full_like(dx, 3), np.full_like(x, 3))
+    _cmp(f"full_like({tag}, 2.5, dtype=float)", da.full_like(dx, 2.5, dtype=float), np.full_like(x, 2.5, dtype=float))
+    rs = tuple(reversed(shape))
+    _cmp(f"ones_like({tag}, shape={rs})", da.ones_like(dx, shape=rs, chunks=tuple(reversed(cs))), np.ones_like(x, shape=rs))
+    _cmp(f"zeros_like(numpy, {tag})", da.zeros_like(x, chunks=cs), np.zeros_like(x))
+    d = da.empty_like(dx)
+    if d.shape != x.shape or d.chunks != dx.chunks or d.dtype != x.dtype or d.compute(scheduler="sync").shape != x.shape:
+        raise Violation(f"empty_like({tag}): shape/chunks/dtype")
+
+
 def obligations(tier):
     obs = []
     if tier == "quick":
         obs.append(mk_arange(8, 9, (1, 2, 3, -1, -2, -3)))
         obs.append(mk_eye(6, 7, 8))
+        obs.append(mk_tri(4, 50, TRI_SPECS))
+        for nb in (1, 2, 3):
+            obs.append(mk_diag1d(nb, 1000))
+            obs.append(mk_diag2d(nb))
+        obs.append(mk_diagonal(4, 5, False))
+        obs.append(mk_diagonal(3, 3, True))
+        obs.append(mk_wrap(1, 8, 9))
+        obs.append(mk_wrap(2, 5, 6))
     else:
         obs.append(mk_arange(12, 13, (1, 2, 3, 4, -1, -2, -3, -4)))
         obs.append(mk_eye(9, 10, 12))
+        obs.append(mk_tri(6, 50, TRI_SPECS))
+        for nb in (1, 2, 3, 4):
+            obs.append(mk_diag1d(nb, 1000))
+            obs.append(mk_diag2d(nb))
+        obs.append(mk_diagonal(6, 7, False))
+        obs.append(mk_diagonal(4, 4, True))
+        obs.append(mk_wrap(1, 12, 13))
+        obs.append(mk_wrap(2, 7, 8))
     return obs
